@@ -366,6 +366,7 @@ def build_value(world, dom, name):
         building = getattr(dom, 'building', False)
         obj = SObj(cls, {'cycles': dom.cycles, 'cell_map': HM.SCellMap(mutable=building or getattr(dom, 'trimming', False)), 'dep_graph': HM.SGraph(),
                          'log': HM.Dummy(), 'evaluate': Builtin('evaluate', HM.heap_evaluate)})
+        obj.partial = True        # an attribute the heap model does not describe is unsupported, not an AttributeError
         if getattr(dom, 'evaluating', None) is not None:
             obj.fields['cell_map'] = HM.SCellMap(classes=True)
             obj.fields['eval'] = Builtin('eval', HM.make_heap_eval(list(dom.evaluating)))
